@@ -16,6 +16,7 @@ def c08(ctx):
     run_script(ctx, gen.sweep_cc14_values(ctx.rng, step=ctx.q(2, 1)), "value-sweep-cc14")
     long_run_battery(ctx, ["cc14"])
     run_script(ctx, gen.extreme_values(ctx.rng, "cc14", ctx.q(8000, 80000)), "extreme-values-cc14")
+    nostd_run(ctx, "cc14", ctx.q(15000, 150000))
     # twin-free canary: corrupt one reported value / fabricate one report
     canary(ctx, trace, corrupt_out("cc14", op=("feed",), need_report=ctx.rng.random() < 0.5))
     ctx.rule = ("design: TLC fixpoint of machine x C08-monitor (all 128 controller numbers, abstract values, "
@@ -59,6 +60,7 @@ def c07(ctx):
         rows += gen.sweep_cc14_values(ctx.rng, step=1)         # all 16384 (high, low) pairs
     run_script(ctx, rows, "value-sweep-cc14")
     long_run_battery(ctx, ["cc14"])
+    nostd_run(ctx, "cc14", ctx.q(6000, 60000))
     canary(ctx, trace, corrupt_field("bytes", [[176, 0, 0], [176, 32, 1]],
                                      lambda r: r["op"] == "enc14" and not r["pan"]))
     canary(ctx, trace, lambda rows, rng: _corrupt_group_out(rows, rng, "rt14"))
@@ -91,6 +93,7 @@ def c11(ctx):
     run_script(ctx, gen.sweep_pn_values(ctx.rng, "pn", step=ctx.q(3, 1)), "value-sweep-pn")
     long_run_battery(ctx, ["pn"])
     run_script(ctx, gen.extreme_values(ctx.rng, "pn", ctx.q(8000, 80000)), "extreme-values-pn")
+    nostd_run(ctx, "pn", ctx.q(15000, 150000))
     canary(ctx, trace, corrupt_out("pn", op=("feed",), need_report=ctx.rng.random() < 0.5))
     ctx.rule = ("design: TLC fixpoint of machine x C11-monitor (all 8 contributing controllers + 11 others, "
                 "abstract values, other message types, reset); code: every TLC edge on all 16 channels x 3 "
@@ -107,6 +110,7 @@ def c10(ctx):
     res, trace = run_script(ctx, gen.roundtrip_pn(ctx.rng, ctx.q(6000, 60000)), "roundtrip-pn")
     run_script(ctx, gen.sweep_pn_values(ctx.rng, "pn", step=1), "value-sweep-pn")     # every parameter number, every 14-bit value
     long_run_battery(ctx, ["pn"])
+    nostd_run(ctx, "pn", ctx.q(6000, 60000))
     canary(ctx, trace, lambda rows, rng: _corrupt_group_out(rows, rng, ctx.rng.choice(["rtpn", "run"])))
     ctx.rule = ("design: invariants I_C10 / I_C10run hold in every reachable machine state (TLC): every abstract "
                 "message's LSB-first encoding and the running forms (3 repetitions) are inverted; code: complete "
